@@ -139,8 +139,23 @@ def _reg_must_and_key(db: ProgramDB) -> List[Instance]:
     IN2 = run_forward(wcfg, 0, ins_transfer, kinds=("n",))
     rets2 = [n for n in wcfg.nodes if n.kind == "return"]
     counts2 = set()
+    from ..boolexpr import guards_of as _guards_of
+
+    def not_an_instance_exit(r) -> bool:
+        """a return taken because what the user's __new__ handed back is not an instance of the class: nothing is registered there"""
+        for g, pol in (_guards_of(r.ast, writer.node.body) or []):
+            t, neg = g, not pol
+            while isinstance(t, ast.UnaryOp) and isinstance(t.op, ast.Not):
+                t, neg = t.operand, not neg
+            if isinstance(t, ast.Call) and dotted(t.func) == "isinstance" and len(t.args) == 2 and unparse(t.args[1]) == cls_param and neg:
+                return True
+        return False
     for r in rets2:
         for st in IN2[r.id]:
+            if not_an_instance_exit(r):
+                if st != 0:
+                    counts2.add(("registered although not an instance", st))
+                continue
             counts2.add(st)
     ok2 = counts2 == {1}
     out.append(inst("REG-MUST", HOLDS if ok2 else VIOLATION, writer, f"{writer.short}[inserts exactly once on every path]",
@@ -643,3 +658,43 @@ def rule_alloc_as_undecorated(db: ProgramDB) -> List[Instance]:
                         f"`{unparse(c)}` calls the allocator without the constructor arguments whatever it is: a decorated class that defines __new__(cls, key) cannot be "
                         f"constructed outside a block (TypeError: missing argument)", line=c.lineno))
     return out
+
+
+# ---------------------------------------------------------------------------------- REG-ONLY-INSTANCES
+def rule_reg_only_instances(db: ProgramDB) -> List[Instance]:
+    """'Ranges over exactly the instances of that type': what a class's own __new__ hands back need not be an instance of the class (a
+    factory __new__ that returns an object of another type - Python then does not run __init__ on it either).  Path rule: from the
+    call of the user's allocator, the registration is reached only on paths on which `isinstance(<new object>, <class>)` was found
+    true."""
+    out = []
+    w = db.fn("predicate:instantiate_class_and_update_cache")
+    cp = w.positional_params[0]
+    cfg = CFG(w)
+    allocs = [nd for nd in cfg.nodes if nd.kind == "stmt" and isinstance(nd.ast, ast.Assign) and isinstance(nd.ast.value, ast.Call)
+              and any(isinstance(a, ast.Starred) for a in nd.ast.value.args) and isinstance(nd.ast.targets[0], ast.Name)]
+    regs = [nd for nd in cfg.nodes if nd.ast is not None and nd.kind == "stmt" and any(isinstance(c, ast.Call) and call_attr(c) == "insert" for c in ast.walk(nd.ast))]
+    if not allocs or not regs:
+        raise AnalysisError("instantiate_class_and_update_cache: the call of the user's allocator / the registration was not found")
+    for al in allocs:
+        obj = al.ast.targets[0].id
+
+        def edge_ok(e, obj=obj):
+            src = cfg.nodes[e.src]
+            if src.kind != "test":
+                return True
+            t = getattr(src.stmt, "test", None)
+            neg = False
+            while isinstance(t, ast.UnaryOp) and isinstance(t.op, ast.Not):
+                t, neg = t.operand, not neg
+            if isinstance(t, ast.Call) and dotted(t.func) == "isinstance" and len(t.args) == 2 and unparse(t.args[0]) == obj and unparse(t.args[1]) == cp:
+                is_true_label = "F" if neg else "T"
+                return e.label != is_true_label           # we look for a path on which it was NOT found true
+            return True
+        p = cfg.find_path(al.id, lambda nd: nd.id in {r.id for r in regs}, kinds=("n",), edge_ok=edge_ok)
+        out.append(inst("REG-ONLY-INSTANCES", VIOLATION if p is not None else HOLDS, w, f"instantiate_class_and_update_cache[{unparse(al.ast)[:50]}]",
+                        "what the user's __new__ returned is registered only if it is an instance of the class" if p is None else
+                        f"the registration is reached from `{unparse(al.ast)[:60]}` without `isinstance({obj}, {cp})` having been found true "
+                        f"({' '.join(cfg.describe_path(p)[-3:])}): a __new__ that hands back an object of another type gets that object registered as an instance - "
+                        f"let(Shape) ranges over an Other", line=al.lineno))
+    return out
+
